@@ -441,6 +441,25 @@ read_and_discard_scanlines(j_decompress_ptr cinfo, JDIMENSION num_lines)
 
 
 /*
+ * Called by _jpeg_skip_scanlines().  The merged upsampler with 2:1 vertical
+ * sampling also counts the rows remaining in the image, and that count has to
+ * follow a skip just like the one in the separate upsampler.
+ */
+
+LOCAL(void)
+set_merged_rows_to_go(j_decompress_ptr cinfo)
+{
+#ifdef UPSAMPLE_MERGING_SUPPORTED
+  if (cinfo->max_v_samp_factor == 2) {
+    my_merged_upsample_ptr upsample = (my_merged_upsample_ptr)cinfo->upsample;
+
+    upsample->rows_to_go = cinfo->output_height - cinfo->output_scanline;
+  }
+#endif
+}
+
+
+/*
  * Called by _jpeg_skip_scanlines().  This partially skips a decompress block
  * by incrementing the rowgroup counter.
  */
@@ -654,6 +673,8 @@ _jpeg_skip_scanlines(j_decompress_ptr cinfo, JDIMENSION num_lines)
     }
     if (!master->using_merged_upsample)
       upsample->rows_to_go = cinfo->output_height - cinfo->output_scanline;
+    else
+      set_merged_rows_to_go(cinfo);
     return num_lines;
   }
 
@@ -698,6 +719,8 @@ _jpeg_skip_scanlines(j_decompress_ptr cinfo, JDIMENSION num_lines)
    */
   if (!master->using_merged_upsample)
     upsample->rows_to_go = cinfo->output_height - cinfo->output_scanline;
+  else
+    set_merged_rows_to_go(cinfo);
 
   /* Always skip the requested number of lines. */
   return num_lines;
